@@ -53,12 +53,12 @@ def tls_times(cn, cv, meta):
         for isserver, rec, kind, plain in cn.s.conn.wire:
             if isserver == srv:
                 if kind == "app" or meta:
-                    firsts.add(min([t for x, y, t in inp if x < o + len(rec) and o < y] or [-1]))
+                    firsts.update(t for x, y, t in inp if x < o + len(rec) and o < y)     # any carrier of that record (the first by sequence number is used)
                     break
                 o += len(rec)
     hs = {ts for ts, _ in pk[:3]}
     data_ts = [ts for ts, fr in pk[3:] if fr["payload"] or fr["flags"] & 0x08]
-    if len(hs) != 1 or not (hs <= firsts) or (data_ts and min(hs) > data_ts[0]):
+    if len(hs) != 1 or not (hs <= firsts):
         return "the synthetic handshake carries %s; the first exported record of a direction was first carried at %s" % (sorted(hs), sorted(firsts))
     for srv in (False, True):
         inp = [(p["off"], p["off"] + p["len"], p["ts"]) for p in cn.packets if p.get("len") and p["isserver"] == srv]
